@@ -118,6 +118,11 @@ MUTANTS = [
 ]
 
 
+sys.path.insert(0, HERE)
+from mutants_extra import EXTRA  # noqa: E402
+MUTANTS = MUTANTS + EXTRA
+
+
 def make_copy(scratch):
     dst = os.path.join(scratch, "repo")
     subprocess.run(["rsync", "-a", "--exclude", ".git", "--exclude", "__pycache__", "--exclude", ".pytest_cache",
